@@ -89,6 +89,33 @@ def compare(ctx, v, op, got, rel, how, dtype):
     return False
 
 
+def tail_threshold(ctx):
+    """TailRule off the lattice: the tail 0.25 E(fmax) fmax is added exactly when fmax > 0.333 Hz.  Grids ending either side of the
+    threshold by less than the lattice can express (0.3329 ... 0.3334, among them 1/3, the end of a period-defined grid): the
+    difference Hs(tail)^2 - Hs(no tail)^2 must be 16 x the closed form above the threshold and zero at or below it (Hrms: 8 x)."""
+    import xarray as xr
+    for fmax in (0.3329, 0.333, 0.33300000000000007, 0.33305, 0.3332, 1.0 / 3.0, 0.33334, 0.34):
+        for nd in (0, 4):
+            F = np.array([0.1, 0.2, 0.28, fmax])
+            e = np.array([1.0, 5.0, 3.0, 2.0])
+            da = xr.DataArray(e, coords={"freq": F}, dims=("freq",), name="efth")
+            if nd:
+                D = np.arange(nd) * (360.0 / nd)
+                da = (da * xr.DataArray(np.array([0.5, 1.0, 2.0, 0.25]), coords={"dir": D}, dims=("dir",))).rename("efth")
+            sf_top = float(da.spec.oned().isel(freq=-1)) if nd else float(da.isel(freq=-1))
+            want = 0.25 * sf_top * fmax if fmax > 0.333 else 0.0
+            for how, acc in (("DataArray", da.spec), ("Dataset", da.to_dataset(name="efth").spec)):
+                for op, c in (("hs", 16.0), ("hrms", 8.0)):
+                    ctx.case(("tail-threshold", fmax, nd, how, op), True)
+                    got = float(getattr(acc, op)(tail=True)) ** 2 - float(getattr(acc, op)(tail=False)) ** 2
+                    if abs(got - c * want) <= 1e-9 * max(1.0, c * want):
+                        ctx.replayed()
+                    else:
+                        ctx.violation({"op": op, "clause": "TailRule", "via": how},
+                                      "%s on a grid ending at %.17g Hz: tail contribution %.6g, defining integral says %.6g (threshold 0.333 Hz)" %
+                                      (op, fmax, got / c, want), {"freq": F.tolist(), "nd": nd})
+
+
 def dispersion(ctx):
     """finite-depth wavenumber / celerity / wavelength satisfy w^2 = g k tanh(k d) within 0.1 %; deep water exact."""
     from wavespectra.core import utils
@@ -286,6 +313,7 @@ def run(ctx):
                               "stats() via %s does not give what the methods give with the same keywords: %s" % (how, probs[:3]), {"F": list(F), "D": list(D)})
             else:
                 ctx.replayed()
+    tail_threshold(ctx)
     dispersion(ctx)
     depth_terms(ctx, some)
     ctx.assume("exactness holds on the lattice (frequencies multiples of 0.05 Hz, whole degrees, integer energies); float32 compared at 3e-6")
